@@ -2,7 +2,10 @@
 CFG = {
     "count": {"quick": 16000, "thorough": 640000},
     "lean_files": ["GeoModel/Distance.lean", "GeoModel/Ops/C07.lean", "GeoModel/Segment.lean", "GeoModel/Locate.lean",
-                   "GeoModel/RelateSpec.lean", "GeoModel/Valid.lean", "GeoModel/F64.lean"],
+                   "GeoModel/RelateSpec.lean", "GeoModel/Valid.lean", "GeoModel/F64.lean",
+                   "GeoProofs/Lemmas/C07PSquare.lean", "GeoProofs/Lemmas/C07PSegSeg.lean", "GeoProofs/Lemmas/C07PMin.lean",
+                   "GeoProofs/Lemmas/C07PBase.lean", "GeoProofs/Lemmas/C07PParts.lean",
+                   "GeoProofs/Lemmas/C07PRings.lean"],
     "rule": "ordered pairs (A, B) cycling through all 100 ordered pairs of the 10 geometry types (Geometry enum on both sides and the "
             "concrete-type impls), on a shared 3..6 grid with half-grid points: B inside a hole of A (one or two holes, hole touching B or not), "
             "B nested in a polygon without holes, both on the same grid (crossing / touching / overlapping), B shifted by a small vector "
@@ -33,11 +36,23 @@ MANIFEST = {
             "as a minimum over all vertex-segment pairs, Rect/Triangle through to_polygon (with the operand order the macros produce), the Multi*/"
             "collection/Geometry dispatch as the list of single-part calls it folds min over. Proved: psd2 is the exact minimum of |p - x|^2 over the "
             "segment and is attained; it is 0 exactly for points of the segment; Line x Line is 0 exactly when the segments share a point and is "
-            "symmetric; LineString x LineString is symmetric (its nested bounding-box rejections are sound); nearest_neighbour_distance is the "
+            "symmetric; segseg_min_at_endpoint (T2): for two segments without a common point the smallest of the four end-point-to-segment "
+            "distances is the minimum of |a(s) - c(t)|^2 over the whole unit square (a positive semi-definite quadratic without a zero on the "
+            "square is matched or undercut on the boundary of the square: homogeneity about the meeting point of the carrier lines, or constancy "
+            "along s - k t = const for parallel directions), so Line x Line, Line x LineString, nearest_neighbour_distance (for line strings "
+            "whose segments do not meet) and LineString x LineString return the true minimum over ALL pairs of points (IsMinDist: lower bound + "
+            "attained), and so does every pair of operands of dimension <= 1; the dispatch recursion visits exactly the pairs (part of a, part of b) "
+            "up to operand order (calls_are_part_pairs), so distance(a, b) of two geometries made of Points, Lines and LineStrings (Multi*, nested "
+            "collections) is the true minimum over all pairs of points of a and b (distG_is_true_min; with Point x LineString pairs _partial, "
+            "where the tolerance test has no false positive, K4); for the areal kernels, once intersects has not fired, the value is the true "
+            "minimum over all pairs of points to the rings the branch measures (Line x Polygon: all rings; LineString x Polygon and Polygon x "
+            "Polygon: the exterior ring(s) in the exterior branch, the hole rings in the containment branch - the latter _partial under the "
+            "bounding-box condition the containment test implies); LineString x LineString is symmetric (its nested bounding-box rejections are sound); nearest_neighbour_distance is the "
             "minimum over all vertex-segment pairs in both directions; all kernels are non-negative and panic-free on non-empty operands; the "
             "dispatch recursion is fuel-independent and equals the min folds of the macros, which lifts zero/minimum through Multi*/collections; "
-            "Rect/Triangle/singleton Multi*/collection-of-one wrappers reduce to the wrapped operand. Polygon x Polygon symmetry and the "
-            "Point x LineString zero-iff are _partial (validity; finding K4). Each run compares the real code with the model "
+            "Rect/Triangle/singleton Multi*/collection-of-one wrappers reduce to the wrapped operand. Polygon x Polygon symmetry is proved "
+            "unconditionally for polygons without holes (hence all Rect/Triangle pairs) and is _partial with holes (a witness shows the "
+            "hypothesis-free statement is false for an invalid operand); the Point x LineString zero-iff is _partial (finding K4). Each run compares the real code with the model "
             "(zero <=> zero exactly, else 16 ulp relative on the square) and, independently, with a brute-force exact minimum over all part pairs "
             "combined with the DE-9IM specification for 'intersects (including containment)', and demands bit-identical results for exchanged "
             "operands, a second representation and enum-vs-concrete impls.",
